@@ -41,6 +41,9 @@ def main(tier='quick', seed=0):
     t0 = time.time()
     results = engine.run_jobs('props.c17', [('contract', '_binarize'), ('contract', 'apply_category_filters')])
     records, errors = [], []
+    from props import c14
+    # the result is a function of the arguments of THIS call: no module-level state, no identity / hash dependence in parsing.py outside run()
+    records.extend(c14.purity_scan(PROP, rels=('depccg/parsing.py',), exclude=('run',), imports=False))
     for r in results:
         records.extend(r.get('records', []))
         if r.get('error'):
@@ -51,6 +54,7 @@ def main(tier='quick', seed=0):
         'list comprehension are evaluated once for an ARBITRARY element (assumptions local to that evaluation), the two loops once for an ARBITRARY sentence and token (iteration (s, i) writes row i of sentence s only: '
         'frame obligation) - and every cell (s, i, j) is proved to be the large negative value iff the word is a key and the category of column j is not listed, the old score otherwise; the arguments are returned as given '
         '(token order, dependency scores untouched: never stored to)',
+        'frame / purity (ast scan of every function of parsing.py except run): no store to module-level state, no id() / hash() dependence - the cells are a function of the arguments of this call alone',
         'preconditions: `categories` lists pairwise different categories (with duplicates the earlier column of a listed category would be overwritten); every dictionary category belongs to the inventory (data clause: exhaustive over '
         'the shipped files in the bounded part); categories behave as values (C13): identities stand for them',
         'assumed contracts: {cat: index for index, cat in enumerate(categories)} maps the category at position j to a position >= j holding the same category; zip / enumerate iterate in order; _type_check returns its list arguments '
